@@ -26,6 +26,7 @@ build() { # variant, extra flags...
 TAGS="" build default
 if [ -f "cmd/$id/.purego" ]; then TAGS="purego" build purego; fi
 if [ -f "cmd/$id/.race" ]; then TAGS="" build race -race; fi
+if [ -f "cmd/$id/.racepurego" ]; then TAGS="purego" build racepurego -race; fi
 case "$MODE" in
   quick|thorough) exec "$BIN/$id-default" check --tier "$MODE" ;;
   replay) exec "$BIN/$id-default" replay "$3" ;;
